@@ -411,6 +411,31 @@ func init() {
 		}
 		return arr
 	})
+	// sort.Slice / sort.SliceStable: the reflection-based swapper cannot run from SSA; insertion sort over the
+	// backing array, asking the caller's less function (symbolic answers fork)
+	sortSlice := func(ex *Exec, fn *ssa.Function, a []Value) Value {
+		iv := a[0].(Iface)
+		sl, ok := iv.v.(Slice)
+		if !ok {
+			ex.unsupported("sort.Slice of a non-slice")
+		}
+		n := ex.concretizeInt(sl.n, "sort.Slice length")
+		less := func(i, j int) bool {
+			r := ex.call(a[1], ex.tc.BV(uint64(i), 64), ex.tc.BV(uint64(j), 64)).(*Term)
+			if r.IsConst() {
+				return r.IsTrue()
+			}
+			return ex.decide([]*Term{r, ex.tc.Not(r)}, "sort.Slice less") == 0
+		}
+		for i := 1; i < n; i++ {
+			for j := i; j > 0 && less(j, j-1); j-- {
+				sl.a[j], sl.a[j-1] = sl.a[j-1], sl.a[j]
+			}
+		}
+		return nil
+	}
+	reg("sort.Slice", sortSlice)
+	reg("sort.SliceStable", sortSlice)
 	reg("(time.Time).String", func(ex *Exec, fn *ssa.Function, a []Value) Value { return ex.opaqueStr("time.String") })
 	reg("(time.Time).GoString", func(ex *Exec, fn *ssa.Function, a []Value) Value { return ex.opaqueStr("time.GoString") })
 	reg("maps.clone", func(ex *Exec, fn *ssa.Function, a []Value) Value {
